@@ -217,6 +217,7 @@ EXTRA = [
     Entry("tuple[*tuple[str, float]]", tuple[typing.Unpack[tuple[str, float]]], "unpacktuple", "fixed-inner"),
     Entry("tuple[int, *tuple[str, *tuple[float, ...]]]", tuple[int, typing.Unpack[tuple[str, typing.Unpack[tuple[float, ...]]]]], "unpacktuple", "nested-variadic"),
     Entry("tuple[int, *tuple[str, ...], float]", tuple[int, typing.Unpack[tuple[str, ...]], float], "unpacktuple", "variadic-middle"),
+    Entry("tuple[int, *tuple[str, ...]] (builtin star syntax)", tuple[int, *tuple[str, ...]], "unpacktuple", "star-syntax"),
     Entry("tuple[*tuple[int, str], *tuple[float, ...]]", tuple[typing.Unpack[tuple[int, str]], typing.Unpack[tuple[float, ...]]], "unpacktuple", "fixed-then-variadic"),
 ]
 
